@@ -55,6 +55,7 @@ GUARDS = {
     61: ('C08-SINGLE-TRANSIT', (12, 13, 14, 16, 19)),
     62: ('C08-PERIPH-STRING-ORDER', (12, 13, 14, 17)),
     63: ('C08-REMOVE-PERIPH-KRATES', (11,)),
+    64: ('C08-DROPS-BIOAVAILABILITY', (15, 17)),
 }
 
 ABS = ['ABS_INST', 'ABS_FO', 'ABS_ZO', 'ABS_SEQ']
@@ -65,7 +66,8 @@ ELS = ['EL_FO', 'EL_ZO', 'EL_MM', 'EL_MIX']
 def req_term(r):
     simple = {'ABS_INST': 'AbsInst', 'ABS_FO': 'AbsFO', 'ABS_ZO': 'AbsZO', 'ABS_SEQ': 'AbsSeq',
               'EL_FO': 'ElFO', 'EL_ZO': 'ElZO', 'EL_MM': 'ElMM', 'EL_MIX': 'ElMix',
-              'LAG_ON': 'LagOn', 'LAG_OFF': 'LagOff', 'PER_ADD': 'PerAdd', 'PER_REM': 'PerRem'}
+              'LAG_ON': 'LagOn', 'LAG_OFF': 'LagOff', 'BIO_ON': 'BioOn', 'BIO_OFF': 'BioOff',
+              'PER_ADD': 'PerAdd', 'PER_REM': 'PerRem'}
     if r in simple:
         return simple[r]
     p = r.split(':')
@@ -85,6 +87,7 @@ def req_func(r):
               'EL_FO': M.set_first_order_elimination, 'EL_ZO': M.set_zero_order_elimination,
               'EL_MM': M.set_michaelis_menten_elimination, 'EL_MIX': M.set_mixed_mm_fo_elimination,
               'LAG_ON': M.add_lag_time, 'LAG_OFF': M.remove_lag_time,
+              'BIO_ON': M.add_bioavailability, 'BIO_OFF': M.remove_bioavailability,
               'PER_ADD': M.add_peripheral_compartment, 'PER_REM': M.remove_peripheral_compartment}
     if r in simple:
         return simple[r]
@@ -99,6 +102,8 @@ def req_func(r):
 def undo_candidate(r, nper_before):
     if r == 'LAG_ON':
         return 'LAG_OFF'
+    if r == 'BIO_ON':
+        return 'BIO_OFF'
     if r == 'PER_ADD':
         return 'PER_REM'
     if r.startswith('PER:') and int(r.split(':')[1]) > nper_before:
@@ -220,10 +225,11 @@ def detect_term(model, impl=None):
     ntr = O.get_number_of_transit_compartments(model)
     nper = O.get_number_of_peripheral_compartments(model)
     lag = bool(O.has_lag_time(model))
+    bio = odes.dosing_compartments[0].bioavailability != 1
     term = (f'(mkDet {ct.opt(a)} {ct.opt(e)} {ct.nat(int(ntr))} '
-            f'{ct.opt(None if depot is None else name_term(depot.name))} {ct.nat(int(nper))} {ct.boolean(lag)})')
+            f'{ct.opt(None if depot is None else name_term(depot.name))} {ct.nat(int(nper))} {ct.boolean(lag)} {ct.boolean(bio)})')
     return term, {'abs': a, 'elim': e, 'transits': int(ntr), 'depot': None if depot is None else depot.name,
-                  'periph': int(nper), 'lag': lag}
+                  'periph': int(nper), 'lag': lag, 'bio': bool(bio)}
 
 
 def stmts_term(model, names):
@@ -307,6 +313,7 @@ def impl_func(impl, r):
               'EL_FO': 'set_first_order_elimination', 'EL_ZO': 'set_zero_order_elimination',
               'EL_MM': 'set_michaelis_menten_elimination', 'EL_MIX': 'set_mixed_mm_fo_elimination',
               'LAG_ON': 'add_lag_time', 'LAG_OFF': 'remove_lag_time',
+              'BIO_ON': 'add_bioavailability', 'BIO_OFF': 'remove_bioavailability',
               'PER_ADD': 'add_peripheral_compartment', 'PER_REM': 'remove_peripheral_compartment'}
     if r in simple:
         return getattr(impl, simple[r])
@@ -341,14 +348,14 @@ def observe(spec, impl=None, perturb=None):
         info['calls'] += 1
         sinfo['req'] = r
         if m2 is None:
-            steps.append(f'(mkStep {req_term(r)} {res} (mkDet None None 0%nat None 0%nat false) None None None)')
+            steps.append(f'(mkStep {req_term(r)} {res} (mkDet None None 0%nat None 0%nat false false) None None None)')
             info['steps'].append(sinfo)
             break
         try:
             dterm, dinfo = detect_term(m2, impl)
         except Exception as e:  # a detector that raises on the result: the sequence ends here
             sinfo['detector_exc'] = f'{type(e).__name__}: {str(e)[:80]}'
-            steps.append(f'(mkStep {req_term(r)} (Crash CStmt) (mkDet None None 0%nat None 0%nat false) None None None)')
+            steps.append(f'(mkStep {req_term(r)} (Crash CStmt) (mkDet None None 0%nat None 0%nat false false) None None None)')
             info['steps'].append(sinfo)
             break
         sinfo['det'] = dinfo
@@ -388,11 +395,11 @@ def gen_request(rng):
         return rng.choice(ELS)
     if k < 0.58:
         return rng.choice(['PER:0', 'PER:1', 'PER:2', 'PER:1', 'PER:2', 'PER_ADD', 'PER_REM'])
-    if k < 0.86:
+    if k < 0.84:
         # MFL TRANSITS(n, DEPOT) -> n, keep_depot=True ; TRANSITS(n, NODEPOT) -> n+1, keep_depot=False
         n = rng.choice([0, 1, 3, 3, 2])
         return f'TR:{n}:K' if rng.random() < 0.6 else f'TR:{n + 1}:N'
-    return rng.choice(['LAG_ON', 'LAG_ON', 'LAG_OFF'])
+    return rng.choice(['LAG_ON', 'LAG_ON', 'LAG_OFF', 'BIO_ON', 'BIO_ON', 'BIO_OFF'])
 
 
 def gen_spec(rng):
@@ -402,7 +409,7 @@ def gen_spec(rng):
 
 def exhaustive_specs(maxlen):
     alphabet = ABS + ELS + ['PER:0', 'PER:1', 'PER:2', 'TR:0:K', 'TR:1:K', 'TR:3:K', 'TR:1:N', 'TR:2:N', 'TR:4:N',
-                            'LAG_ON', 'LAG_OFF']
+                            'LAG_ON', 'LAG_OFF', 'BIO_ON', 'BIO_OFF']
     import itertools
     out = []
     for start in ('oral', 'pheno'):
@@ -414,7 +421,7 @@ def exhaustive_specs(maxlen):
 
 def category_pairs():
     """All ordered pairs of requests within one feature category (the setters' own from->to tables)."""
-    cats = [ABS, ELS, ['LAG_ON', 'LAG_OFF'], ['PER:0', 'PER:1', 'PER:2', 'PER_ADD', 'PER_REM'],
+    cats = [ABS, ELS, ['LAG_ON', 'LAG_OFF'], ['BIO_ON', 'BIO_OFF'], ['PER:0', 'PER:1', 'PER:2', 'PER_ADD', 'PER_REM'],
             ['TR:0:K', 'TR:1:K', 'TR:2:K', 'TR:3:K', 'TR:1:N', 'TR:2:N', 'TR:4:N']]
     out = []
     for start in ('oral', 'pheno'):
@@ -579,7 +586,7 @@ def run(ctx):
     ctx.coverage['input_distribution'] = {
         'length_hist': {str(k): sum(1 for s in kept if len(s['seq']) == k) for k in range(1, 7)},
         'start': {k: sum(1 for s in kept if s['start'] == k) for k in ('pheno', 'oral')},
-        'request_kinds': {k: sum(1 for _, s in allsteps if s['req'].startswith(k)) for k in ('ABS', 'EL', 'PER', 'TR', 'LAG')},
+        'request_kinds': {k: sum(1 for _, s in allsteps if s['req'].startswith(k)) for k in ('ABS', 'EL', 'PER', 'TR', 'LAG', 'BIO')},
         'real_exceptions': {k: sum(1 for _, s in allsteps if s.get('res') == k)
                             for k in sorted({s.get('res') for _, s in allsteps if s.get('res')})},
         'tag_hist': {str(k): v for k, v in sorted(hist.items())},
